@@ -39,7 +39,20 @@ var defaultPkgs = []string{
 	"pkg/eviction",
 	"pkg/util",
 	"pkg/zstd",
+	"pkg/blobstore/configuration",
+	"pkg/grpc",
 }
+
+// seamPkg is the package whose constructor calls and environment calls are routed through vseam.
+const seamPkg = "pkg/blobstore/configuration"
+
+// seamCalls maps (import path, function) of environment constructors to their vseam replacement.
+var seamCalls = map[[2]string]string{
+	{"github.com/buildbarn/bb-storage/pkg/blockdevice", "NewBlockDeviceFromConfiguration"}: "NewBlockDeviceFromConfiguration",
+	{"github.com/buildbarn/bb-storage/pkg/filesystem", "NewLocalDirectory"}:               "NewLocalDirectory",
+}
+
+const localPkgPath = "github.com/buildbarn/bb-storage/pkg/blobstore/local"
 
 var importMap = map[string][2]string{
 	"sync":                          {"sync", shimBase + "vsync"},
@@ -127,7 +140,7 @@ func main() {
 				fmt.Fprintf(os.Stderr, "cannot read %s: %v\n", src, err)
 				os.Exit(1)
 			}
-			nb, changed, err := rewrite(orig, b)
+			nb, changed, err := rewrite(orig, b, p == seamPkg)
 			if err != nil {
 				fmt.Fprintf(os.Stderr, "%s: %v\n", orig, err)
 				os.Exit(1)
@@ -181,6 +194,10 @@ type rewriter struct {
 	needSched bool
 	counter  int
 	skip     map[ast.Node]bool
+	seams       bool
+	needSeam    bool
+	keepUsed    [][2]string
+	importNames map[string]string // local name -> import path
 }
 
 func sel(pkg, name string) ast.Expr {
@@ -211,7 +228,7 @@ func isRecv(e ast.Expr) (*ast.UnaryExpr, bool) {
 	return nil, false
 }
 
-func rewrite(name string, src []byte) ([]byte, bool, error) {
+func rewrite(name string, src []byte, seams bool) ([]byte, bool, error) {
 	fset := token.NewFileSet()
 	f, err := parser.ParseFile(fset, name, src, parser.ParseComments)
 	if err != nil {
@@ -233,10 +250,15 @@ func rewrite(name string, src []byte) ([]byte, bool, error) {
 		}
 	}
 	f.Comments = keep
-	r := &rewriter{fset: fset, file: f, skip: map[ast.Node]bool{}}
+	r := &rewriter{fset: fset, file: f, skip: map[ast.Node]bool{}, seams: seams, importNames: map[string]string{}}
 	// Imports.
 	for _, im := range f.Imports {
 		p, _ := strconv.Unquote(im.Path.Value)
+		nm := p[strings.LastIndex(p, "/")+1:]
+		if im.Name != nil {
+			nm = im.Name.Name
+		}
+		r.importNames[nm] = p
 		if p == "time" {
 			r.timeName = "time"
 			if im.Name != nil {
@@ -272,6 +294,16 @@ func rewrite(name string, src []byte) ([]byte, bool, error) {
 	}
 	if r.needSched {
 		astutil.AddNamedImport(fset, f, "vsched", shimBase+"vsched")
+	}
+	if r.needSeam {
+		astutil.AddNamedImport(fset, f, "vseam", shimBase+"vseam")
+	}
+	for _, ku := range r.keepUsed {
+		// keep the import of a replaced environment constructor used
+		f.Decls = append(f.Decls, &ast.GenDecl{Tok: token.VAR, Specs: []ast.Spec{&ast.ValueSpec{
+			Names:  []*ast.Ident{ast.NewIdent("_")},
+			Values: []ast.Expr{sel(ku[0], ku[1])},
+		}}})
 	}
 	if r.timeName != "" {
 		// keep "time" used even if every use was rewritten
@@ -328,6 +360,29 @@ func (r *rewriter) post(c *astutil.Cursor) {
 	}
 	switch s := n.(type) {
 	case *ast.CallExpr:
+		if r.seams {
+			if se, ok := s.Fun.(*ast.SelectorExpr); ok {
+				if id, ok := se.X.(*ast.Ident); ok && id.Obj == nil {
+					ip := r.importNames[id.Name]
+					if repl, ok := seamCalls[[2]string{ip, se.Sel.Name}]; ok {
+						r.keepUsed = append(r.keepUsed, [2]string{id.Name, se.Sel.Name})
+						s.Fun = sel("vseam", repl)
+						r.changed, r.needSeam = true, true
+						return
+					}
+					if ip == localPkgPath && strings.HasPrefix(se.Sel.Name, "New") && !r.skip[s] {
+						r.skip[s] = true
+						if se.Sel.Name == "NewPersistentBlockList" {
+							c.Replace(call("vseam", "ObsPBL", s))
+						} else {
+							c.Replace(call("vseam", "Obs", &ast.BasicLit{Kind: token.STRING, Value: strconv.Quote(se.Sel.Name)}, s))
+						}
+						r.changed, r.needSeam = true, true
+						return
+					}
+				}
+			}
+		}
 		// time.Now() / time.Since(x)
 		if se, ok := s.Fun.(*ast.SelectorExpr); ok {
 			if id, ok := se.X.(*ast.Ident); ok && r.timeName != "" && id.Name == r.timeName && id.Obj == nil {
